@@ -287,6 +287,7 @@ func (x *Exec) applyContract(st *State, name string, c *Contract, f *ssa.Functio
 	for k, v := range st.heaps {
 		preHeaps[k] = v
 	}
+	preNext := x.frontier(st)
 	var r Val
 	if c.Pure {
 		r = x.pureApp(st, name, f, c, args, nil, rt)
@@ -304,6 +305,7 @@ func (x *Exec) applyContract(st *State, name string, c *Contract, f *ssa.Functio
 	x.assumeWf(st, r)
 	penv := x.calleeEnv(st, c, f, args)
 	penv.oldHeaps = preHeaps
+	penv.preNext = preNext
 	penv.post = true
 	x.bindResults(penv, c, f, r, rt)
 	for _, e := range c.Ensures {
@@ -653,6 +655,20 @@ func (x *Exec) doAppend(st *State, in *ssa.Call, args []Val) bool {
 	n, nKnown := intLit(SlLen(t))
 	if x.P.sortOf(in.Common().Args[1].Type()) == SStr {
 		x.unsup(pos, "append of string to []byte")
+	}
+	if nKnown && n == 1 && len(st.frames) == 0 && x.c != nil && len(x.c.OnAppend) > 0 && x.P.sortOf(et) == SIface {
+		// obligations about every error value appended in this function
+		ev := x.readLoc(st, &Loc{Kind: "elem", Heap: "E!Iface", Addr: SlArr(t), Idx: SlOff(t), Sort: SIface})
+		for i, c := range x.c.OnAppend {
+			env := x.envFor(st, nil)
+			env.vars["e"] = Val{T: ev, Ty: et}
+			g := x.trBool(env, c.E)
+			lbl := c.Label
+			if lbl == "" {
+				lbl = fmt.Sprintf("onappend%d", i)
+			}
+			x.addVC(st, "ensures", fmt.Sprintf("onappend/%s@%s", lbl, x.P.pos(pos)), c.Prop, pos, g, c.Src)
+		}
 	}
 	if isStruct(et) {
 		x.appendStructs(st, in, args)
